@@ -66,7 +66,8 @@ class Harness:
             return None
         fuc.paths += len(results)
         if not any(r.ctx.obligations for r in results):
-            self.vacuous.append(base)
+            why = '; '.join(sorted({f'{type(r.value).__name__}: {r.value}'[:160] for r in results if r.outcome == 'raise'}))
+            self.vacuous.append(base + (f' [every path raised: {why}]' if why else ''))
         for pi, r in enumerate(results):
             for o in r.ctx.obligations:
                 self.add_obligation(f'{base}/{o.name}#p{pi}', o, fuc)
